@@ -314,7 +314,7 @@ class StmtMixin:
         else:
             for r in refs:
                 if isinstance(r, str):
-                    if r not in prev: prev.append(r)
+                    if not any(isinstance(p, str) for p in prev): prev.append(r)
                 elif not any((not isinstance(p, str)) and r.eq(p) for p in prev): prev.append(r)
             self._written_refs[k] = prev
 
@@ -334,7 +334,7 @@ class StmtMixin:
                 # the body writes this field only at loop-invariant references: every other object keeps its value
                 r = z3.Int("r!hv")
                 conds = [r != x for x in refs if not isinstance(x, str)]
-                if "fresh" in refs: conds.append(r < st.alloc)      # st.alloc: allocation counter at loop entry (havocked below)
+                if any(isinstance(x, str) for x in refs): conds.append(r < st.alloc)      # st.alloc: allocation counter at loop entry (havocked below)
                 st.assume(z3.ForAll([r], z3.Implies(z3.And(conds + [z3.BoolVal(True)]), z3.Select(new, r) == z3.Select(arr, r))))
                 self.frame_parent[new.get_id()] = (arr, list(refs))
             st.heap[k] = new
